@@ -120,6 +120,39 @@ def ties(rec, s):
     return False
 
 
+def all_bonds(mol):
+    """Every bond incl. those of supplied hydrogens, keyed by atom identity."""
+    conf = mol.conformations[mol.conformation_names[0]]
+
+    def ak(a):
+        return (a.chain_id, a.res_num, a.res_name, a.name)
+    return set(tuple(sorted((ak(a), ak(b)))) for a in conf.atoms for b in a.bonded_atoms)
+
+
+def with_shared_proton(fed):
+    """The fed-back file plus one user-supplied proton midway between the closest N/O pair of two residues (<= 3.0 A)."""
+    atoms = [i for i in fed if not isinstance(i, str) and i.element in ('N', 'O')]
+    best = None
+    for i in range(len(atoms)):
+        for j in range(i):
+            a, b = atoms[i], atoms[j]
+            if a.reskey == b.reskey or abs(a.resnum - b.resnum) == 1 and a.chain == b.chain:
+                continue
+            d2 = (a.x - b.x) ** 2 + (a.y - b.y) ** 2 + (a.z - b.z) ** 2
+            if 2400 ** 2 <= d2 <= 3000 ** 2 and (best is None or d2 < best[0]):
+                best = (d2, a, b)
+    if best is None:
+        return None
+    _, a, b = best
+    h = a.clone()
+    h.name4 = ' HX '
+    h.x, h.y, h.z = (a.x + b.x) // 2, (a.y + b.y) // 2, (a.z + b.z) // 2
+    h.tail = '           H'
+    out = list(fed)
+    out.insert(next(k for k, it in enumerate(out) if it is a) + 1, h)
+    return out
+
+
 def heavy_view(mol):
     """Bonds between heavy atoms and protein/ion groups, keyed by atom identity (frame independent)."""
     conf = mol.conformations[mol.conformation_names[0]]
@@ -163,8 +196,13 @@ def run_case(case, ctx, acc):
         rp = pk.record(mp)
         fed = c07.hydrogens_fed_back(s, mp) if amino else None
         rk0 = None
+        shared, rs0, bs0 = None, None, None
         if fed is not None:
             rk0 = pk.record(pk.run(gen.to_text(fed), ('--keep-protons',)))
+            shared = with_shared_proton(fed)
+            if shared is not None:
+                ms = pk.run(gen.to_text(shared), ('--keep-protons',))
+                rs0, bs0 = pk.record(ms), all_bonds(ms)
         nt = any(any(g['dets'][t] for t in g['dets']) or g['energy_volume'] for g in r0['confs']['AVR']['groups'])
         trs = translations(s, ctx.tier, ctx.seed)
         maxdev = 0.0
@@ -208,6 +246,18 @@ def run_case(case, ctx, acc):
                         if d:
                             v.append(('pka-depends-on-pose/keep-protons/%s' % d[0][0], str(d[0])[:300]))
                             inputs['moved_with_h'] = gen.to_text(fm)
+                    if shared is not None:
+                        sm = gen.S([i.clone() if not isinstance(i, str) else i for i in shared]).rotate(rot).translate(t)
+                        m2 = pk.run(gen.to_text(sm), ('--keep-protons',))
+                        acc.n += 1
+                        acc.extra['shared_proton_runs'] += 1
+                        if all_bonds(m2) != bs0:
+                            v.append(('bonds-of-supplied-hydrogens-depend-on-pose', 'bonds differ: %s' % sorted(all_bonds(m2) ^ bs0)[:3]))
+                            inputs['moved_with_h'] = gen.to_text(sm)
+                        d = cmp.diff_records(rs0, pk.record(m2), tol=1e-9)
+                        if d:
+                            v.append(('pka-depends-on-pose/keep-protons-shared-proton/%s' % d[0][0], str(d[0])[:300]))
+                            inputs['moved_with_h'] = gen.to_text(sm)
                     # production mode: measured only
                     pk.seam_unrounded_hydrogens(False)
                     r1p = pk.record(pk.run(text1))
